@@ -227,6 +227,14 @@ func (o *opRun) releaseOne(pk *parked, forceFail bool) string {
 				if o.localHas() {
 					o.localFirst = "1"
 				}
+				if o.a["kind"] == "putvalue" && l == "V" {
+					// "stores the record locally first and sends that same record": the stored record is the one being sent,
+					// receive stamp included (a re-put of an unchanged value must refresh the local copy too)
+					r, err := o.w.d.valueStore.Get(context.Background(), o.key)
+					if err != nil || r == nil || r.GetTimeReceived() != pk.msg.GetRecord().GetTimeReceived() {
+						o.localFirst = "0"
+					}
+				}
 			}
 			cut := ""
 			if pk.ctx.Err() != nil && !o.disturbed {
@@ -440,6 +448,10 @@ func runOp(c *vu.Case) {
 	case strings.HasPrefix(a["local"], "r") || a["local"] == "bad":
 		k := o.key
 		_ = w.d.valueStore.Put(ctx, k, &recpb.Record{Key: []byte(k), Value: valBytes(a["local"])})
+		if a["kind"] == "putvalue" {
+			// the record already stored is older than the one about to be put (the store stamps the receive time)
+			time.Sleep(2 * time.Second)
+		}
 	case strings.HasPrefix(a["local"], "p"):
 		for _, r := range parseInts(a["local"][1:], ".") {
 			_ = w.d.providerStore.AddProvider(ctx, keyCid.Hash(), peer.AddrInfo{ID: w.peerOf(r)})
